@@ -129,7 +129,12 @@ def make_mesh(kind, rng):
             perm = rng.permutation(m.t.shape[1])
             m = cls(m.p, m.t[:, perm])
             return m, {'kind': kind, 'p': m.p.tolist(), 't': m.t.tolist()}
-        raise RuntimeError('no sliver-free Delaunay mesh found')
+        # (practically unreachable) fall back to a structured simplicial mesh under the same kind of affine map
+        cls = skfem.MeshTri if dim == 2 else skfem.MeshTet
+        m0 = cls.init_tensor(*_grid(rng, n, dim))
+        A, c = _affine(rng, dim)
+        m = cls(A @ m0.p + c[:, None], m0.t)
+        return m, {'kind': kind, 'p': m.p.tolist(), 't': m.t.tolist(), 'fallback': True}
     if kind in ('quad_affine', 'quad_general'):
         n = int(rng.integers(3, 6))
         xs, ys = _grid(rng, n, 2)
@@ -211,40 +216,81 @@ def relerr(a, b):
 # ------------------------------------------------------------------------------------ patch tests
 
 def patch_scalar(m, elem, deg, problem, rng, intorder=None, facet_bases=True):
-    """problem: 'poisson' | 'reaction'.  Returns (relative error, info) of solve(*condense(...)) vs the exact solution."""
+    """problem: 'poisson' | 'reaction' | 'unit_load' (-Laplace u = 1 through models.poisson.unit_load).
+    Returns (relative error, info) of solve(*condense(...)) vs the exact solution."""
     import skfem
     from skfem import Basis, FacetBasis, BilinearForm, LinearForm, solve, condense
     from skfem.helpers import dot, grad
-    from skfem.models.poisson import laplace, mass
+    from skfem.models.poisson import laplace, mass, unit_load
     dim = m.dim()
     u = Poly.random(dim, deg, rng)
+    if problem == 'unit_load':
+        # make -Laplace(u) = 1 exactly:  u = q - (Laplace(q) + 1) / (2 dim) |x|^2  with a quadratic q
+        q = Poly.random(dim, 2, rng)
+        lq = q.lap().t.get(tuple([0] * dim), 0.0)
+        r2 = Poly(dim, {tuple(2 if j == i else 0 for j in range(dim)): 1.0 for i in range(dim)})
+        u = q + r2.scale(-(lq + 1.0) / (2 * dim))
     c = float(rng.integers(1, 4)) if problem == 'reaction' else 0.0
     kw = {} if intorder is None else {'intorder': intorder}
-    basis = Basis(m, elem, **kw)
+    named = bool(rng.integers(0, 2)) and facet_bases
     if facet_bases:
-        fD, fN = split_boundary(m, rng, need_dirichlet=(problem == 'poisson'))
+        fD, fN = split_boundary(m, rng, need_dirichlet=(problem != 'reaction'))
     else:                     # cell types without facet bases (prisms): Dirichlet data on the whole boundary
         fD, fN = m.boundary_facets(), np.zeros(0, dtype=np.int64)
+    if named:
+        m = m.with_boundaries({'gD': fD, 'gN': fN} if len(fN) else {'gD': fD})
+    basis = Basis(m, elem, **kw)
     A = laplace.assemble(basis)
     if c:
         A = A + c * mass.assemble(basis)
     lapu = u.lap()
-    b = LinearForm(lambda v, w: (-lapu(w.x) + c * u(w.x)) * v).assemble(basis)
+    if problem == 'unit_load':
+        b = unit_load.assemble(basis)
+    else:
+        b = LinearForm(lambda v, w: (-lapu(w.x) + c * u(w.x)) * v).assemble(basis)
     if len(fN):
-        fbN = FacetBasis(m, elem, facets=fN, **kw)
+        fbN = FacetBasis(m, elem, facets=('gN' if named else fN), **kw)
         b = b + LinearForm(lambda v, w: dot(u.grad(w.x), w.n) * v).assemble(fbN)
     xstar = basis.project(lambda x: u(x))
     if len(fD) and not facet_bases:
         x = solve(*condense(A, b, x=xstar, D=basis.get_dofs()))
     elif len(fD):
-        fbD = FacetBasis(m, elem, facets=fD, **kw)
+        fbD = FacetBasis(m, elem, facets=('gD' if named else fD), **kw)
         xD = fbD.project(lambda x: u(x))
-        D = basis.get_dofs(facets=fD)
+        D = basis.get_dofs('gD') if named else basis.get_dofs(facets=fD)
         x = solve(*condense(A, b, x=xD, D=D))
     else:
         x = solve(A, b)
-    info = {'problem': problem, 'elem': type(elem).__name__, 'deg': deg, 'c': c, 'u': u.describe(),
+    info = {'problem': problem, 'elem': type(elem).__name__, 'deg': deg, 'c': c, 'u': u.describe(), 'named_boundaries': named,
             'dirichlet_facets': fD.tolist(), 'neumann_facets': fN.tolist(), 'N': int(basis.N)}
+    return relerr(x, xstar), info
+
+
+def patch_vector_poisson(m, selem, deg, rng, intorder=None):
+    """componentwise Poisson problem through models.poisson.vector_laplace"""
+    from skfem import Basis, FacetBasis, LinearForm, ElementVector, solve, condense
+    from skfem.helpers import dot
+    from skfem.models.poisson import vector_laplace
+    dim = m.dim()
+    U = [Poly.random(dim, deg, rng) for _ in range(dim)]
+    L = [p.lap() for p in U]
+    elem = ElementVector(selem)
+    kw = {} if intorder is None else {'intorder': intorder}
+    basis = Basis(m, elem, **kw)
+    fD, fN = split_boundary(m, rng, need_dirichlet=True)
+    A = vector_laplace.assemble(basis)
+
+    def uvec(x):
+        return np.array([U[i](x) for i in range(dim)])
+    b = LinearForm(lambda v, w: dot(np.array([-L[i](w.x) for i in range(dim)]), v)).assemble(basis)
+    if len(fN):
+        fbN = FacetBasis(m, elem, facets=fN, **kw)
+        b = b + LinearForm(lambda v, w: dot(np.array([sum(U[i].d(j)(w.x) * w.n[j] for j in range(dim)) for i in range(dim)]), v)).assemble(fbN)
+    xstar = basis.project(uvec)
+    xD = FacetBasis(m, elem, facets=fD, **kw).project(uvec)
+    x = solve(*condense(A, b, x=xD, D=basis.get_dofs(facets=fD)))
+    info = {'problem': 'vector_poisson', 'elem': 'ElementVector(' + type(selem).__name__ + ')', 'deg': deg,
+            'u': [p.describe() for p in U], 'dirichlet_facets': fD.tolist(), 'neumann_facets': fN.tolist(), 'N': int(basis.N)}
     return relerr(x, xstar), info
 
 
@@ -252,9 +298,14 @@ def patch_elasticity(m, selem, deg, rng, intorder=None):
     import skfem
     from skfem import Basis, FacetBasis, LinearForm, ElementVector, solve, condense
     from skfem.helpers import dot
-    from skfem.models.elasticity import linear_elasticity
+    from skfem.models.elasticity import linear_elasticity, lame_parameters, plane_stress
     dim = m.dim()
-    lam, mu = float(rng.integers(1, 4)), float(rng.integers(1, 3))
+    E, nu = float(rng.integers(2, 9)), float(rng.choice([0.1, 0.25, 0.3, 0.4]))
+    pstress = dim == 2 and bool(rng.integers(0, 2))
+    lam_lib, mu_lib = lame_parameters(*plane_stress(E, nu)) if pstress else lame_parameters(E, nu)
+    # the textbook values, independently of the library
+    mu = E / (2 * (1 + nu))
+    lam = E * nu / (1 - nu ** 2) if pstress else E * nu / ((1 + nu) * (1 - 2 * nu))
     U = [Poly.random(dim, deg, rng) for _ in range(dim)]
     G = [[U[i].d(j) for j in range(dim)] for i in range(dim)]                 # grad u
     tr = Poly(dim)
@@ -271,7 +322,7 @@ def patch_elasticity(m, selem, deg, rng, intorder=None):
     kw = {} if intorder is None else {'intorder': intorder}
     basis = Basis(m, elem, **kw)
     fD, fN = split_boundary(m, rng, need_dirichlet=True)
-    A = linear_elasticity(lam, mu).assemble(basis)
+    A = linear_elasticity(lam_lib, mu_lib).assemble(basis)
 
     def fvec(x):
         return np.array([F[i](x) for i in range(dim)])
@@ -290,7 +341,7 @@ def patch_elasticity(m, selem, deg, rng, intorder=None):
     xD = fbD.project(uvec)
     D = basis.get_dofs(facets=fD)
     x = solve(*condense(A, b, x=xD, D=D))
-    info = {'problem': 'elasticity', 'elem': 'ElementVector(' + type(selem).__name__ + ')', 'deg': deg, 'lambda': lam, 'mu': mu,
+    info = {'problem': 'elasticity', 'elem': 'ElementVector(' + type(selem).__name__ + ')', 'deg': deg, 'E': E, 'nu': nu, 'plane_stress': pstress, 'lambda': lam, 'mu': mu,
             'u': [p.describe() for p in U], 'dirichlet_facets': fD.tolist(), 'neumann_facets': fN.tolist(), 'N': int(basis.N)}
     return relerr(x, xstar), info
 
@@ -304,6 +355,14 @@ def projection_whole(m, elem, rng, intorder=None):
     x = rng.uniform(-1, 1, basis.N)
     y = basis.project(basis.interpolate(x))
     return relerr(y, x), {'what': 'whole mesh', 'elem': type(elem).__name__, 'N': int(basis.N)}
+
+
+def projection_complex(m, elem, rng):
+    from skfem import Basis
+    basis = Basis(m, elem)
+    x = rng.uniform(-1, 1, basis.N) + 1j * rng.uniform(-1, 1, basis.N)
+    y = basis.project(basis.interpolate(x), dtype=np.complex128)
+    return relerr(y, x), {'what': 'whole mesh (complex dtype)', 'elem': type(elem).__name__, 'N': int(basis.N)}
 
 
 def projection_subdomain(m, elem, rng, via_argument=False, intorder=None):
